@@ -33,6 +33,8 @@ Proof.
   injection Hin as <- <- <- <- <- <-. eauto.
 Qed.
 
+Ltac hshift i D := match goal with |- context [hpo ?sc ?o] => rewrite (hpo_shift sc o i D eq_refl) end.
+
 Section Main.
 Variables (p : aprog) (G : gtable) (t : text) (toks : list token).
 Hypothesis Hwt : well_typed (expected p) G.
@@ -109,13 +111,11 @@ Lemma kinds_split l1 dd l2 : a_decls p = l1 ++ dd :: l2 ->
   map tk toks = flat_map fl_decl l1 ++ fl_decl dd ++ (flat_map fl_decl l2 ++ cm (a_ceof p) ++ [Eof]).
 Proof. intros H. rewrite Hk. unfold flatten. rewrite H, flat_map_app. cbn [flat_map]. now rewrite <- !app_assoc. Qed.
 
-Local Open Scope N_scope.
-
 Lemma frame l1 dd l2 (ho : hocc) tok line col ctx :
   a_decls p = l1 ++ dd :: l2 ->
   occ_at (fl_decl dd) (len (flat_map fl_decl l1)) ho ->
   nth_error toks (HoverValid.o_tok ho) = Some tok ->
-  ts tok <= get_insertion_index line col t -> get_insertion_index line col t < te tok ->
+  (ts tok <= get_insertion_index line col t)%N -> (get_insertion_index line col t < te tok)%N ->
   match gdecl_name (x_decl dd) with Some n => lookup G (id_val n) | None => None end = Some ctx ->
   forall K : text -> gentry -> bool -> res (option loc),
     with_cursor d line col K
@@ -130,7 +130,7 @@ Lemma frame_w l1 dd l2 want (ho : hocc) tok line col ctx :
   a_decls p = l1 ++ dd :: l2 ->
   occ_at_w want (prev_kind_k None (flat_map fl_decl l1)) (fl_decl dd) (len (flat_map fl_decl l1)) ho ->
   nth_error toks (HoverValid.o_tok ho) = Some tok ->
-  ts tok <= get_insertion_index line col t -> get_insertion_index line col t < te tok ->
+  (ts tok <= get_insertion_index line col t)%N -> (get_insertion_index line col t < te tok)%N ->
   match gdecl_name (x_decl dd) with Some n => lookup G (id_val n) | None => None end = Some ctx ->
   forall K : text -> gentry -> bool -> res (option loc),
     with_cursor d line col K = K (HoverValid.o_name ho) ctx (want (o_scope ho)).
@@ -147,7 +147,7 @@ Lemma type_case l1 c1 c2 xn c3 ty c4 l2 o tok line col :
   let D := len (flat_map fl_decl l1) in
   a_decls p = l1 ++ dd :: l2 -> In o (occs_of_decl (x_decl dd, D)) ->
   nth_error toks (Nav.o_tok o) = Some tok ->
-  ts tok <= get_insertion_index line col t -> get_insertion_index line col t < te tok ->
+  (ts tok <= get_insertion_index line col t)%N -> (get_insertion_index line col t < te tok)%N ->
   agree line col o.
 Proof.
   intros dd D Hds Ho Hn H1 H2.
@@ -167,7 +167,7 @@ Proof.
     unfold hpo, HoverValid.o_tok. cbn [fst]. now rewrite Heq. }
   unfold occs_of_decl in Ho. cbn [fst snd x_decl dd td_name td_ty] in Ho. apply in_app_or in Ho as [Ho|Ho].
   - destruct Ho as [<-|[]]. apply Hfin; [reflexivity| |].
-    + rewrite (hpo_shift ScGlobal _ (x_ident (len c1 + 1) c2 xn) D eq_refl). apply in_or_app. left. left. reflexivity.
+    + hshift (x_ident (len c1 + 1) c2 xn) D. apply in_or_app. left. left. reflexivity.
     + intros gp. apply (type_handlers _ tte).
       * cbn [binding o_role]. symmetry. exact (find_type_decl p G Hwt _ _ _ _ _ _ _ _ Hds).
       * exact Hlk.
@@ -176,8 +176,144 @@ Proof.
     destruct (ident_in_texpr (x_type 0 ty) (len c1 + 1 + len c2 + 1 + len c3 + 1)) as [j|] eqn:Ej; [|destruct Hi].
     destruct Hi as [<-|[]]. destruct (denotes_ident _ _ _ _ _ Hden _ _ Ej) as [tte' Htte'].
     apply Hfin; [reflexivity| |].
-    + rewrite (hpo_shift ScGlobal _ j D eq_refl). apply in_or_app. right. cbn [occs_opt_texpr]. exact (texpr_bridge _ _ _ D Ej).
+    + hshift j D. apply in_or_app. right. cbn [occs_opt_texpr]. exact (texpr_bridge _ _ _ D Ej).
     + intros gp. apply (type_handlers _ tte'); [reflexivity | exact (Hsub _ _ Htte') | exact I].
 Qed.
 
+(* ---- an occurrence inside a procedure declaration ---- *)
+Lemma proc_case l1 c1 c2 xn c3 ps c4 c5 vs b c6 l2 o tok line col :
+  let dd := DProc c1 c2 xn c3 ps c4 c5 vs b c6 in
+  let D := len (flat_map fl_decl l1) in
+  a_decls p = l1 ++ dd :: l2 -> In o (occs_of_decl (x_decl dd, D)) ->
+  nth_error toks (Nav.o_tok o) = Some tok ->
+  (ts tok <= get_insertion_index line col t)%N -> (get_insertion_index line col t < te tok)%N ->
+  agree line col o.
+Proof.
+  intros dd D Hds Ho Hn H1 H2.
+  destruct (decl_view p G Hwt _ _ _ Hds) as [Gi [ke [Hke [Hlk [_ [Hsub [Hch Hlt]]]]]]]. fold D in Hke.
+  change (x_decl dd) with (GProc (the_proc dd)) in Hke, Ho.
+  assert (Hown : pd_name (the_proc dd) = Some (x_ident (len c1 + 1) c2 xn)) by reflexivity.
+  inversion Hke as [ | d0 name L1 pes L2 Hname _ Hpar Hvar]; subst. rewrite Hown in Hname. injection Hname as <-.
+  cbn [fst snd id_val x_ident] in Hlk, Hpar, Hvar.
+  match type of Hlk with lookup G xn = Some (GProcE ?pe0) => set (pe := pe0) in * end.
+  assert (HpL : pe_local pe = L2) by reflexivity.
+  assert (Hpr : pe_range pe = shift_range (info_range (mkinfo 0 (len (fl_decl dd)))) D) by reflexivity.
+  (* the body is well-typed under the local table of the entry *)
+  pose proof Hwt as [_ Hbodies]. unfold wt_bodies in Hbodies. rewrite Forall_forall in Hbodies.
+  assert (Hg : In (GProc (the_proc dd), D) (pg_decls (expected p))).
+  { rewrite (decls_split p _ _ _ Hds). apply in_or_app. right. left. reflexivity. }
+  destruct (Hbodies _ Hg) as [_ Hwb]. unfold wt_body in Hwb. cbn [fst snd] in Hwb.
+  assert (Hoe : own_entry G (the_proc dd) D pe).
+  { exists (x_ident (len c1 + 1) c2 xn). repeat split; exact Hlk. }
+  pose proof (proj2 (wt_occs2 L2 G) _ (Hwb pe Hoe) D) as Hbody. rewrite Forall_forall in Hbody.
+  (* where the occurrences sit *)
+  pose proof (proc_header_hlocated c1 c2 xn c3 ps c4 c5 vs b c6 D (prev_kind_k None (flat_map fl_decl l1))) as Hloc_h.
+  cbv zeta in Hloc_h. fold dd in Hloc_h. unfold wlocated in Hloc_h. rewrite Forall_forall in Hloc_h.
+  pose proof (proc_body_located c1 c2 xn c3 ps c4 c5 vs b c6 D (prev_kind_k None (flat_map fl_decl l1))) as Hloc_b.
+  cbv zeta in Hloc_b. fold dd in Hloc_b. unfold wlocated in Hloc_b. rewrite Forall_forall in Hloc_b.
+  assert (Hfin : forall want sc o', Nav.o_tok o' = Nav.o_tok o ->
+            occ_at_w want (prev_kind_k None (flat_map fl_decl l1)) (fl_decl dd) D (hpo sc o') ->
+            handlers_at (Nav.o_name o') (GProcE pe) (want sc) o' -> agree line col o').
+  { intros want sc o' Heq Hat Hh. eapply finish; [|apply Hh].
+    apply (frame_w l1 dd l2 want (hpo sc o') tok line col (GProcE pe) Hds Hat); try assumption.
+    unfold hpo, HoverValid.o_tok. cbn [fst]. now rewrite Heq. }
+  unfold occs_of_decl in Ho. cbn [fst snd] in Ho. rewrite Hown in Ho. cbn [option_map id_val x_ident opt_list] in Ho.
+  set (ps' := pd_params (the_proc dd)) in *. set (vs' := pd_vars (the_proc dd)) in *. set (st := pd_stmts (the_proc dd)) in *.
+  repeat (apply in_app_or in Ho as [Ho|Ho]).
+  - (* the name of the procedure *)
+    apply mk_occs_inv in Ho as [i [[<-|[]] ->]]. apply (Hfin is_gscope ScGlobal); [reflexivity| |].
+    + hshift (x_ident (len c1 + 1) c2 xn) D. apply Hloc_h. unfold proc_header_occs. rewrite Hown.
+      apply in_or_app. left. left. reflexivity.
+    + cbn [is_gscope]. apply (proc_handlers _ pe).
+      * cbn [binding o_role]. symmetry. exact (find_proc_decl_occ p G Hwt _ _ _ _ _ _ _ _ _ _ _ _ Hds).
+      * exact Hlk.
+      * unfold Nav.o_name. cbn [o_id shift_ident id_val x_ident]. unfold lookup_for, lt_lookup. now rewrite Hlk.
+  - (* a parameter's name *)
+    apply param_occs_inv in Ho as [doc [r [i [ty [inf [po [Hin ->]]]]]]].
+    destruct (param_item Gi xn D (Some xn) [] ps' L1 pes vs' Hpar _ _ _ _ _ _ Hin) as [le [Hle Hitem]].
+    apply (Hfin is_gscope ScLocal); [reflexivity| |].
+    + hshift (shift_ident i po) D. apply Hloc_h. unfold proc_header_occs. apply in_or_app. right. apply in_or_app. left.
+      exact (param_name_bridge D _ _ _ _ _ _ _ Hin).
+    + cbn [is_gscope].
+      eapply (local_handlers l1 c1 c2 xn c3 ps c4 c5 vs b c6 l2 Gi pe _ le _ Hds Hpr Hsub Hch Hlt); [reflexivity | | exact Hitem].
+      rewrite HpL. exact (wf_vars_mono _ _ _ _ _ Hvar _ _ Hle).
+  - (* a type name in a parameter's type *)
+    apply mk_occs_inv in Ho as [i [Hi ->]].
+    destruct (types_in_params_inv _ _ Hi) as [doc [r [n [te [toff [inf [po [j [Hin [Hj ->]]]]]]]]]].
+    destruct (wf_params_types _ _ _ _ _ _ Hpar _ _ _ _ _ _ _ Hin) as [cr [t0 Hden]].
+    destruct (denotes_ident _ _ _ _ _ Hden _ _ Hj) as [tte Htte].
+    apply (Hfin is_gscope ScGlobal); [reflexivity| |].
+    + hshift (shift_ident j po) D. apply Hloc_h. unfold proc_header_occs. apply in_or_app. right. apply in_or_app. left.
+      exact (param_type_bridge D _ _ Hi).
+    + cbn [is_gscope]. apply (type_handlers _ tte); [reflexivity | exact (Hsub _ _ Htte) | reflexivity].
+  - (* a variable's name *)
+    apply var_occs_inv in Ho as [doc [i [ty [inf [po [Hin ->]]]]]].
+    destruct (var_item Gi xn D (Some xn) L1 vs' L2 ps' Hvar _ _ _ _ _ Hin) as [le [Hle Hitem]].
+    apply (Hfin is_gscope ScLocal); [reflexivity| |].
+    + hshift (shift_ident i po) D. apply Hloc_h. unfold proc_header_occs. apply in_or_app. right. apply in_or_app. right.
+      exact (var_name_bridge D _ _ _ _ _ _ Hin).
+    + cbn [is_gscope].
+      eapply (local_handlers l1 c1 c2 xn c3 ps c4 c5 vs b c6 l2 Gi pe _ le _ Hds Hpr Hsub Hch Hlt); [reflexivity | | exact Hitem].
+      rewrite HpL. exact Hle.
+  - (* a type name in a variable's type *)
+    apply mk_occs_inv in Ho as [i [Hi ->]].
+    destruct (types_in_vars_inv _ _ Hi) as [doc [n [te [toff [inf [po [j [Hin [Hj ->]]]]]]]]].
+    destruct (wf_vars_types _ _ _ _ _ Hvar _ _ _ _ _ _ Hin) as [Lk [cr [t0 Hden]]].
+    destruct (denotes_ident _ _ _ _ _ Hden _ _ Hj) as [tte Htte].
+    apply (Hfin is_gscope ScGlobal); [reflexivity| |].
+    + hshift (shift_ident j po) D. apply Hloc_h. unfold proc_header_occs. apply in_or_app. right. apply in_or_app. right.
+      exact (var_type_bridge D _ _ Hi).
+    + cbn [is_gscope]. apply (type_handlers _ tte); [reflexivity | exact (Hsub _ _ Htte) | reflexivity].
+  - (* a callee *)
+    apply mk_occs_inv in Ho as [i [Hi ->]].
+    pose proof (proj2 (stmts_bridge st D i) Hi) as Hb. pose proof (Hbody _ Hb) as Hres.
+    unfold body_res, hp, o_scope, HoverValid.o_name in Hres. cbn [fst snd] in Hres. destruct Hres as [HL [pe' Hpe']].
+    apply (Hfin never ScGlobal); [reflexivity| |].
+    + hshift i D. apply Hloc_b. exact Hb.
+    + unfold never. apply (proc_handlers _ pe' pe).
+      * cbn [binding o_role o_proc]. unfold Nav.o_name. cbn [o_id shift_ident id_val].
+        pose proof (find_local p G Hwt l1 c1 c2 xn c3 ps c4 c5 vs b c6 l2 Gi L1 pes L2 Hds Hpar Hvar (id_val i)) as Hfl.
+        rewrite HL in Hfl. now rewrite Hfl.
+      * exact Hpe'.
+      * unfold Nav.o_name. cbn [o_id shift_ident id_val]. unfold lookup_for, lt_lookup. cbv beta iota. rewrite HpL, HL, Hpe'. reflexivity.
+  - (* a variable in a statement *)
+    apply mk_occs_inv in Ho as [i [Hi ->]].
+    pose proof (proj1 (stmts_bridge st D i) Hi) as Hb. pose proof (Hbody _ Hb) as Hres.
+    unfold body_res, hp, o_scope, HoverValid.o_name in Hres. cbn [fst snd] in Hres.
+    destruct (lookup L2 (id_val i)) as [le|] eqn:E; [clear Hres | contradiction].
+    pose proof (find_local p G Hwt l1 c1 c2 xn c3 ps c4 c5 vs b c6 l2 Gi L1 pes L2 Hds Hpar Hvar (id_val i)) as Hfl.
+    rewrite E in Hfl. destruct Hfl as [bo [Hfd Hitem]].
+    apply (Hfin never ScLocal); [reflexivity| |].
+    + hshift i D. apply Hloc_b. exact Hb.
+    + unfold never.
+      eapply (local_handlers l1 c1 c2 xn c3 ps c4 c5 vs b c6 l2 Gi pe _ le bo Hds Hpr Hsub Hch Hlt); [ | | exact Hitem].
+      * cbn [binding o_role o_proc]. unfold Nav.o_name. cbn [o_id shift_ident id_val]. now rewrite Hfd.
+      * rewrite HpL. exact E.
+Qed.
+
 End Main.
+
+(* ---------------------------------------------------------------------------------------- *)
+(* the theorem                                                                               *)
+
+Theorem goto_valid : forall (p : aprog) (G : gtable) (t : text) (toks : list token) (d : doc),
+  prog_ok p = true -> well_typed (expected p) G ->
+  lex t = Some toks -> map tk toks = flatten p ++ [Eof] ->
+  new_doc_res t = ODone d ->
+  forall o l c, In o (occurrences (d_ast d)) -> cursor_inside d o l c ->
+    goto_declaration d l c = ROk (spec_declaration d o)
+    /\ goto_definition d l c = ROk (spec_declaration d o)
+    /\ goto_type_definition d l c = ROk (spec_type_definition d o)
+    /\ goto_implementation d l c = ROk (spec_implementation d o).
+Proof.
+  intros p G t toks d Hok Hwt Hlex Hk Hd o l c.
+  rewrite (valid_doc p G t toks d Hok Hwt Hlex Hk Hd). clear Hd d. fold (vdoc t toks p G).
+  intros Ho [tok [Hn Hin]]. cbn [vdoc d_toks d_text d_ast] in Ho, Hn, Hin.
+  unfold in_range in Hin. cbn [fst snd] in Hin. apply andb_true_iff in Hin as [Ha Hb].
+  apply N.leb_le in Ha. apply N.ltb_lt in Hb.
+  unfold occurrences in Ho. apply in_flat_map in Ho as [[g D] [Hg Ho]]. cbn [expected pg_decls] in Hg.
+  destruct (x_decls_in _ _ _ _ Hg) as [l1 [dd [l2 [Hds [-> HD]]]]]. cbn [Nat.add] in HD. subst D.
+  destruct dd as [c1 c2 xn c3 ty c4 | c1 c2 xn c3 ps c4 c5 vs b c6].
+  - exact (type_case p G t toks Hwt Hlex Hk l1 c1 c2 xn c3 ty c4 l2 o tok l c Hds Ho Hn Ha Hb).
+  - exact (proc_case p G t toks Hwt Hlex Hk l1 c1 c2 xn c3 ps c4 c5 vs b c6 l2 o tok l c Hds Ho Hn Ha Hb).
+Qed.
